@@ -316,9 +316,26 @@ class Flattener:
              for e in (X, Y): e /= d            ->   X /= d; Y /= d
         (None when st is not of this kind)"""
         def plain(a):
+            if isinstance(a, ast.Constant) or (isinstance(a, ast.UnaryOp) and isinstance(a.operand, ast.Constant)):
+                return True
             while isinstance(a, ast.Attribute):
                 a = a.value
             return isinstance(a, ast.Name)
+
+        def literal_items(it):
+            """items of a literal, of enumerate(literal) as (index, item) pairs, of zip(literal, literal)"""
+            if isinstance(it, (ast.Tuple, ast.List)) and all(plain(e) for e in it.elts):
+                return list(it.elts)
+            if isinstance(it, ast.Call) and isinstance(it.func, ast.Name) and not it.keywords:
+                if it.func.id == 'enumerate' and len(it.args) == 1:
+                    inner = literal_items(it.args[0])
+                    if inner is not None:
+                        return [ast.Tuple(elts=[ast.Constant(value=i_), e_], ctx=ast.Load()) for i_, e_ in enumerate(inner)]
+                if it.func.id == 'zip' and it.args:
+                    cols = [literal_items(a_) for a_ in it.args]
+                    if all(c_ is not None for c_ in cols) and len({len(c_) for c_ in cols}) == 1:
+                        return [ast.Tuple(elts=list(r_), ctx=ast.Load()) for r_ in zip(*cols)]
+            return None
 
         def put(node, name, value):
             def rec(n):
@@ -359,6 +376,25 @@ class Flattener:
                     ast.fix_missing_locations(a)
                     out.append(a)
                 return out
+        items_ = literal_items(st.iter) if isinstance(st, ast.For) else None
+        if isinstance(st, ast.For) and not st.orelse and isinstance(st.target, ast.Tuple) and items_ is not None and \
+           1 <= len(items_) <= 4 and all(isinstance(t_, ast.Name) for t_ in st.target.elts) and \
+           all(isinstance(i_, ast.Tuple) and len(i_.elts) == len(st.target.elts) and all(plain(x_) for x_ in i_.elts) for i_ in items_) and \
+           len(st.body) <= 6 and \
+           not any(isinstance(n, (ast.Break, ast.Continue, ast.Return)) for b in st.body for n in ast.walk(b)) and \
+           not any(isinstance(n, ast.Name) and n.id in {t_.id for t_ in st.target.elts} and isinstance(n.ctx, ast.Store)
+                   for b in st.body for n in ast.walk(b)):
+            # for a, b in enumerate((X, Y)) / zip(...) over literals: the body once per row, names replaced
+            out = []
+            for row in items_:
+                for b in st.body:
+                    nb = b
+                    for t_, e_ in zip(st.target.elts, row.elts):
+                        nb = put(nb, t_.id, e_)
+                    ast.copy_location(nb, b)
+                    ast.fix_missing_locations(nb)
+                    out.append(nb)
+            return out
         if isinstance(st, ast.For) and not st.orelse and isinstance(st.target, ast.Name) and \
            isinstance(st.iter, (ast.Tuple, ast.List)) and 1 <= len(st.iter.elts) <= 4 and \
            all(plain(e) for e in st.iter.elts) and len(st.body) <= 3 and \
